@@ -156,6 +156,10 @@ struct Walk<'a> {
     slice_bad: bool,
     depth: usize,
     max_depth: usize,
+    nodes: Vec<SyntaxNode>,
+    elements: Vec<SyntaxElement>,
+    nav_bad: bool,
+    nav: bool,
 }
 
 impl<'a> Walk<'a> {
@@ -171,6 +175,13 @@ impl<'a> Walk<'a> {
         n.write_to(&mut out).unwrap();
         if out.len() != n.byte_len() || !self.slice_eq(n.offset(), n.byte_len(), &out) {
             self.slice_bad = true;
+        }
+        if self.nav {
+            self.nodes.push(n.clone());
+            self.elements.push(SyntaxElement::Node(n.clone()));
+            if !nav_node_ok(n) {
+                self.nav_bad = true;
+            }
         }
         let mut run = n.offset();
         for ch in n.children_with_tokens() {
@@ -198,6 +209,9 @@ impl<'a> Walk<'a> {
                     if !(tr.start <= tr.end && self.slice_eq(tr.start, tr.end - tr.start, t.text().as_bytes())) {
                         self.slice_bad = true;
                     }
+                    if self.nav {
+                        self.elements.push(SyntaxElement::Token(t.clone()));
+                    }
                     self.leaves.push(t);
                 }
             }
@@ -208,6 +222,101 @@ impl<'a> Walk<'a> {
         self.events.push_str("E ");
         self.depth -= 1;
     }
+}
+
+/// Navigation API of a node against the positions in its children_with_tokens() list (independent of
+/// next_sibling & co): children see this node as parent, and their sibling / nth / first / last accessors agree
+/// with their place in the list.
+fn nav_node_ok(p: &SyntaxNode) -> bool {
+    let cs: Vec<SyntaxElement> = p.children_with_tokens().collect();
+    let node_list: Vec<SyntaxNode> = cs.iter().filter_map(|c| c.as_node()).collect();
+    let mut ok = true;
+    ok &= p.children().collect::<Vec<_>>() == node_list;
+    ok &= p.tokens().collect::<Vec<_>>() == cs.iter().filter_map(|c| c.as_token()).collect::<Vec<_>>();
+    ok &= p.first_child() == node_list.first().cloned();
+    ok &= p.first_child_or_token() == cs.first().cloned();
+    ok &= p.last_child_or_token() == cs.last().cloned();
+    ok &= p.nth_child(node_list.len()).is_none() && p.nth_child_or_token(cs.len()).is_none();
+    let mut j = 0usize;
+    for (i, c) in cs.iter().enumerate() {
+        ok &= p.nth_child_or_token(i).as_ref() == Some(c);
+        ok &= c.parent().as_ref() == Some(p);
+        let prev = if i == 0 { None } else { Some(cs[i - 1].clone()) };
+        let next = cs.get(i + 1).cloned();
+        ok &= c.next_sibling_or_token() == next;
+        match c {
+            SyntaxElement::Node(n) => {
+                ok &= p.nth_child(j).as_ref() == Some(n);
+                ok &= n.prev_sibling() == prev;
+                ok &= n.next_sibling() == node_list.get(j + 1).cloned();
+                ok &= n.ancestors().nth(1).as_ref() == Some(p);
+                j += 1;
+            }
+            SyntaxElement::Token(t) => {
+                ok &= t.prev_sibling_or_token() == prev;
+                ok &= t.is_first_sibling() == (i == 0) && t.is_last_sibling() == (i + 1 == cs.len());
+                ok &= t.ancestors().next().as_ref() == Some(p);
+            }
+        }
+    }
+    ok
+}
+
+/// Traversals from the root against the independent recursive walk: Preorder (= AstNode::walk) enters exactly the
+/// nodes, PreorderWithTokens exactly the nodes and tokens, in textual order, every Enter is matched by a Leave;
+/// the first_token/next_token and last_token/prev_token chains enumerate exactly the leaves.
+fn nav_root_ok(root: &SyntaxNode, w: &Walk) -> bool {
+    use vhdl_syntax::syntax::visitor::{Preorder, PreorderWithTokens, WalkEvent};
+    let mut ok = true;
+    let mut entered = Vec::new();
+    let mut left = 0usize;
+    for ev in Preorder::new(root.clone()) {
+        match ev {
+            WalkEvent::Enter(n) => entered.push(n),
+            WalkEvent::Leave(_) => left += 1,
+        }
+    }
+    ok &= entered == w.nodes && left == w.nodes.len();
+    let mut entered = Vec::new();
+    let mut left = 0usize;
+    for ev in PreorderWithTokens::new(root.clone()) {
+        match ev {
+            WalkEvent::Enter(e) => entered.push(e),
+            WalkEvent::Leave(_) => left += 1,
+        }
+    }
+    ok &= entered == w.elements && left == w.elements.len();
+    // token chains
+    let mut chain = Vec::new();
+    let mut cur = root.first_token();
+    while let Some(t) = cur {
+        if chain.len() > w.leaves.len() {
+            break;
+        }
+        cur = t.next_token();
+        chain.push(t);
+    }
+    ok &= chain == w.leaves;
+    let mut chain = Vec::new();
+    let mut cur = root.last_token();
+    while let Some(t) = cur {
+        if chain.len() > w.leaves.len() {
+            break;
+        }
+        cur = t.prev_token();
+        chain.push(t);
+    }
+    chain.reverse();
+    ok &= chain == w.leaves;
+    // every node: first_token / last_token are the first / last leaf inside its range
+    for n in &w.nodes {
+        let inside: Vec<&SyntaxToken> = w.leaves.iter().filter(|l| l.offset() >= n.offset() && l.offset() + l.byte_len() <= n.offset() + n.byte_len()).collect();
+        if n.byte_len() > 0 && w.nodes.len() <= 400 {
+            ok &= n.first_token().map(|t| t.offset()) == inside.first().map(|t| t.offset());
+            ok &= n.last_token().map(|t| t.offset() + t.byte_len()) == inside.last().map(|t| t.offset() + t.byte_len());
+        }
+    }
+    ok
 }
 
 struct Keep;
@@ -328,9 +437,32 @@ fn run_case(input: &[u8], rng: &mut Rng, fixed_repl: Option<&str>, label: Option
             if root.byte_len() != input.len() || root.offset() != 0 {
                 flags.push('B');
             }
-            let mut w = Walk { input, events: String::new(), offsets: String::new(), leaves: vec![], tile_bad: false, slice_bad: false, depth: 0, max_depth: 0 };
+            let mut w = Walk { input, events: String::new(), offsets: String::new(), leaves: vec![], tile_bad: false, slice_bad: false, depth: 0, max_depth: 0, nodes: vec![], elements: vec![], nav_bad: false, nav: false };
+            w.nav = !big;
             if catch_unwind(AssertUnwindSafe(|| w.node(&root))).is_err() {
                 flags.push('O');
+            }
+            if !big {
+                // (for AstNode::walk: the same Preorder over file.raw())
+                let walk_count = file.walk().filter(|e| matches!(e, vhdl_syntax::syntax::visitor::WalkEvent::Enter(_))).count();
+                let nav_ok = catch_unwind(AssertUnwindSafe(|| nav_root_ok(&root, &w))).unwrap_or(false);
+                if w.nav_bad || !nav_ok || walk_count != w.nodes.len() {
+                    flags.push('N');
+                }
+            } else {
+                // big inputs: the node pre-order only (the per-element accessors are linear in the sibling count)
+                let mut count = 0usize;
+                fn count_nodes(n: &SyntaxNode, c: &mut usize) {
+                    *c += 1;
+                    for ch in n.children() {
+                        count_nodes(&ch, c);
+                    }
+                }
+                count_nodes(&root, &mut count);
+                let walk_count = file.walk().filter(|e| matches!(e, vhdl_syntax::syntax::visitor::WalkEvent::Enter(_))).count();
+                if walk_count != count {
+                    flags.push('N');
+                }
             }
             if w.tile_bad {
                 flags.push('O');
@@ -557,7 +689,7 @@ fn run_case(input: &[u8], rng: &mut Rng, fixed_repl: Option<&str>, label: Option
                             }
                             // offsets of the new tree tile the new text (every request of short inputs, else the first)
                             if (k == 0 || input.len() <= 300) && !big {
-                                let mut w2 = Walk { input: &v, events: String::new(), offsets: String::new(), leaves: vec![], tile_bad: false, slice_bad: false, depth: 0, max_depth: 0 };
+                                let mut w2 = Walk { input: &v, events: String::new(), offsets: String::new(), leaves: vec![], tile_bad: false, slice_bad: false, depth: 0, max_depth: 0, nodes: vec![], elements: vec![], nav_bad: false, nav: false };
                                 if catch_unwind(AssertUnwindSafe(|| w2.node(nr))).is_err() || w2.tile_bad || w2.slice_bad {
                                     local_bad = true;
                                 }
@@ -827,7 +959,7 @@ fn run_api_case(k: usize, t: usize) -> (String, String) {
             if root.byte_len() != v.len() || root.offset() != 0 {
                 flags.push('B');
             }
-            let mut w = Walk { input: &v, events: String::new(), offsets: String::new(), leaves: vec![], tile_bad: false, slice_bad: false, depth: 0, max_depth: 0 };
+            let mut w = Walk { input: &v, events: String::new(), offsets: String::new(), leaves: vec![], tile_bad: false, slice_bad: false, depth: 0, max_depth: 0, nodes: vec![], elements: vec![], nav_bad: false, nav: false };
             if catch_unwind(AssertUnwindSafe(|| w.node(&root))).is_err() || w.tile_bad {
                 flags.push('O');
             }
@@ -1067,7 +1199,7 @@ fn main() {
                         catch_unwind(AssertUnwindSafe(|| {
                             let (file, _) = vhdl_syntax::parser::parse(inp.as_slice());
                             let root = file.raw();
-                            let mut w = Walk { input: &inp, events: String::new(), offsets: String::new(), leaves: vec![], tile_bad: false, slice_bad: false, depth: 0, max_depth: 0 };
+                            let mut w = Walk { input: &inp, events: String::new(), offsets: String::new(), leaves: vec![], tile_bad: false, slice_bad: false, depth: 0, max_depth: 0, nodes: vec![], elements: vec![], nav_bad: false, nav: false };
                             w.node(&root);
                             w.max_depth
                         }))
